@@ -17,13 +17,30 @@ type trans struct {
 	failAt     int
 	err        error
 	st         *Stepper
+	alteredAt  int
+}
+
+// alteredReport: a report of the named bias kind that was produced by an earlier stage of this request no longer reads
+// as it did when it was produced (it no longer carries what that stage handed on).
+func alteredReport(c *Case, id, biasName string, t trans, bs []interface{}) []Violation {
+	if t.alteredAt < 0 || t.alteredAt >= len(bs) {
+		return nil
+	}
+	if asS(asM(bs[t.alteredAt])["name"]) != biasName {
+		stat("earlier_report_of_another_bias_altered(C09's subject)")
+		return nil
+	}
+	return []Violation{viol(c, id+"/earlier-report-altered", "the report of bias %d (%s) was altered by a later stage: it no longer carries the values that stage handed on", t.alteredAt, biasName)}
 }
 
 func lastTransition(req M, script *svc.Script) trans {
 	svc.SetScript(script)
 	defer svc.SetScript(nil)
 	st, step, failAt, err := runPath(req)
-	t := trans{prev: step.prev, next: step.next, rep: step.report, fired: step.fired, failAt: failAt, err: err, st: st}
+	t := trans{prev: step.prev, next: step.next, rep: step.report, fired: step.fired, failAt: failAt, err: err, st: st, alteredAt: step.alteredAt}
+	if err != nil {
+		t.alteredAt = -1
+	}
 	if step.report != nil {
 		t.props = asM(step.report["props"])
 	}
@@ -47,6 +64,14 @@ func statePrefixes(deep bool) [][]M {
 		}
 	}
 	return out
+}
+
+// ownPrefixes: the property's own bias applied earlier in the same request, followed by a bias that changes what it
+// looked at (values, ranges, the criteria list) — anything the bias remembered from its first application is stale when
+// it is applied again.
+func ownPrefixes(own M) [][]M {
+	core := biasAlphabet(0)
+	return [][]M{{own, core[2]}, {own, core[7]}, {own, core[0]}, {own, core[4]}, {own, own}, {own, core[1]}}
 }
 
 func near(a, b float64) bool {
